@@ -88,26 +88,72 @@ Proof.
   destruct (build_from [] always ts (s_world s)) as [[[w' ex] r] m']. simpl in *. exact H.
 Qed.
 
+(** every build of a session history stays inside the theorems' scope *)
+Fixpoint shist_in_scope (h : list sop) (w : world) : Prop :=
+  match h with
+  | [] => True
+  | o :: r => match o with SOp o' => op_in_scope o' w | _ => True end /\ shist_in_scope r (wstep w o)
+  end.
+
+Lemma shist_in_scopeb_ok h : forall w, shist_in_scopeb h w = true -> shist_in_scope h w.
+Proof.
+  induction h as [|o h IH]; intros w H; simpl in *; [exact I|].
+  apply andb_true_iff in H. destruct H as [H1 H2]. split; [|now apply IH].
+  destruct o as [o| |]; try exact I. destruct o; simpl; try exact I; now apply build_in_scopeb_ok.
+Qed.
+
+(** removing out/ wholesale (the cache file included) re-establishes the invariant trivially *)
+Lemma winv_clean w : winv (clean w).
+Proof.
+  split.
+  - intros d b H. discriminate.
+  - split; [intros o c s H; discriminate|split; [intros d b o s H; discriminate|intros d d' b b' o s H; discriminate]].
+Qed.
+
+Theorem wrun_inv h : forall w, winv w -> shist_in_scope h w -> winv (wrun h w).
+Proof.
+  induction h as [|o h IH]; intros w Hw Hs; simpl; [assumption|].
+  destruct Hs as [Ho Hr]. apply IH; [|assumption].
+  destruct o as [o| |]; simpl; [now apply step_inv|assumption|apply winv_clean].
+Qed.
+
+Lemma wrun_plain h : forall w, no_wipeb h = true -> wrun h w = run (plain h) w.
+Proof.
+  induction h as [|o h IH]; intros w H; simpl in *; [reflexivity|].
+  apply andb_true_iff in H. destruct H as [H1 H2].
+  destruct o as [o| |]; simpl; try discriminate; now apply IH.
+Qed.
+
+Lemma shist_plain h : forall w, no_wipeb h = true -> hist_in_scope (plain h) w -> shist_in_scope h w.
+Proof.
+  induction h as [|o h IH]; intros w H Hs; simpl in *; [exact I|].
+  apply andb_true_iff in H. destruct H as [H1 H2].
+  destruct o as [o| |]; simpl in *; try discriminate.
+  - destruct Hs as [Ho Hr]. split; [assumption|now apply IH].
+  - split; [exact I|now apply IH].
+Qed.
+
 (** With the memo made inside [Build] at every call, a history of operations
     and Build calls on ONE long-lived Builder - or on Builders replaced at
-    any points of the history - goes through the same worlds and executes the
-    same rules with the same results as the history of Caco/Build.v, whatever
+    any points of the history, with out/ removed wholesale at any points -
+    goes through the same worlds and executes the same rules with the same
+    results as the same history with a new Builder for every build, whatever
     the Builder held when the history began. *)
-Theorem session_per_build_eq_run : forall h s,
-  s_world (fst (srun MemoPerBuild h s)) = run (plain h) (s_world s) /\
-  snd (srun MemoPerBuild h s) = trace (plain h) (s_world s).
+Theorem session_per_build_eq_wrun : forall h s,
+  s_world (fst (srun MemoPerBuild h s)) = wrun h (s_world s) /\
+  snd (srun MemoPerBuild h s) = wtrace h (s_world s).
 Proof.
   induction h as [|o h IH]; intros s; [split; reflexivity|].
-  destruct o as [o|].
+  destruct o as [o| |].
   - assert (Hplain : forall o', (forall ts, o' <> OBuild ts) -> (forall ts, o' <> OBuildAlways ts) ->
-              s_world (fst (srun MemoPerBuild (SOp o' :: h) s)) = run (plain (SOp o' :: h)) (s_world s) /\
-              snd (srun MemoPerBuild (SOp o' :: h) s) = trace (plain (SOp o' :: h)) (s_world s)).
+              s_world (fst (srun MemoPerBuild (SOp o' :: h) s)) = wrun (SOp o' :: h) (s_world s) /\
+              snd (srun MemoPerBuild (SOp o' :: h) s) = wtrace (SOp o' :: h) (s_world s)).
     { intros o' H1 H2.
       assert (E : sstep MemoPerBuild s (SOp o') = (mkS (step (s_world s) o') (s_held s), None)).
       { destruct o'; try reflexivity; [now elim (H1 ts)|now elim (H2 ts)]. }
-      assert (Et : trace (plain (SOp o' :: h)) (s_world s) = trace (plain h) (step (s_world s) o')).
+      assert (Et : wtrace (SOp o' :: h) (s_world s) = wtrace h (step (s_world s) o')).
       { destruct o'; try reflexivity; [now elim (H1 ts)|now elim (H2 ts)]. }
-      rewrite Et. cbn [srun plain run fold_left]. rewrite E.
+      rewrite Et. cbn [srun wrun fold_left wstep]. rewrite E.
       specialize (IH (mkS (step (s_world s) o') (s_held s))).
       destruct (srun MemoPerBuild h _) as [s'' tr]. simpl in *. exact IH. }
     destruct o as [nm st|rs|o c|o|dt|ts|ts]; try (apply Hplain; intros; discriminate).
@@ -122,6 +168,24 @@ Proof.
       rewrite <- Hb. simpl. destruct IH as [IH1 IH2]. split; [exact IH1|now rewrite IH2].
   - simpl. specialize (IH (mkS (s_world s) [])).
     destruct (srun MemoPerBuild h _) as [s'' tr]. simpl in *. exact IH.
+  - simpl. specialize (IH (mkS (clean (s_world s)) (s_held s))).
+    destruct (srun MemoPerBuild h _) as [s'' tr]. simpl in *. exact IH.
+Qed.
+
+(** ... which, without [SWipeOut], is the history [run] of Caco/Build.v *)
+Corollary session_per_build_eq_run h s :
+  no_wipeb h = true ->
+  s_world (fst (srun MemoPerBuild h s)) = run (plain h) (s_world s).
+Proof.
+  intros H. destruct (session_per_build_eq_wrun h s) as [-> _]. now apply wrun_plain.
+Qed.
+
+Lemma session_winv h rs src :
+  shist_in_scope h (empty_world rs src) ->
+  winv (s_world (fst (srun MemoPerBuild h (new_session rs src)))).
+Proof.
+  intros Hh. destruct (session_per_build_eq_wrun h (new_session rs src)) as [-> _].
+  apply wrun_inv; [apply winv_empty|exact Hh].
 Qed.
 
 (** ** The theorems of Caco/BuildProofs.v for Build calls on one Builder *)
@@ -131,7 +195,7 @@ Qed.
     Builder, leaves for every reachable file set what a build from an empty
     out/ leaves, and that clean build succeeds. *)
 Theorem session_incremental_eq_clean h rs src always always' ts s1 e1 L :
-  hist_in_scope (plain h) (empty_world rs src) ->
+  shist_in_scope h (empty_world rs src) ->
   let s := fst (srun MemoPerBuild h (new_session rs src)) in
   build_in_scope ts (s_world s) -> load_world (s_world s) ts = LOk L ->
   sbuild MemoPerBuild always ts s = (s1, e1, BOk) ->
@@ -143,26 +207,23 @@ Theorem session_incremental_eq_clean h rs src always always' ts s1 e1 L :
                 content_at (w_out w2) (fileset_out r) = Some (CList l).
 Proof.
   intros Hh s Hs Hl Hb.
-  destruct (session_per_build_eq_run h (new_session rs src)) as [Hw _].
-  fold s in Hw. simpl in Hw.
-  pose proof (sbuild_per_build always ts s) as Hb'. rewrite Hb in Hb'.
-  rewrite Hw in *. symmetry in Hb'.
-  exact (incremental_eq_clean_hist (plain h) rs src always always' ts (s_world s1) e1 L Hh Hs Hl Hb').
+  pose proof (session_winv h rs src Hh) as Hw. fold s in Hw.
+  pose proof (sbuild_per_build always ts s) as Hb'. rewrite Hb in Hb'. symmetry in Hb'.
+  exact (incremental_eq_clean always always' ts (s_world s) (s_world s1) e1 L Hw Hs Hl Hb').
 Qed.
 
 (** a second Build call on the same Builder with nothing changed executes nothing *)
 Theorem session_noop_rebuild h rs src always ts s1 e1 :
-  hist_in_scope (plain h) (empty_world rs src) ->
+  shist_in_scope h (empty_world rs src) ->
   let s := fst (srun MemoPerBuild h (new_session rs src)) in
   build_in_scope ts (s_world s) ->
   sbuild MemoPerBuild always ts s = (s1, e1, BOk) ->
   exists s2, sbuild MemoPerBuild false ts s1 = (s2, [], BOk) /\ s_world s2 = s_world s1.
 Proof.
   intros Hh s Hs Hb.
-  destruct (session_per_build_eq_run h (new_session rs src)) as [Hw _].
-  fold s in Hw. simpl in Hw.
-  pose proof (sbuild_per_build always ts s) as Hb'. rewrite Hb in Hb'. rewrite Hw in *. symmetry in Hb'.
-  pose proof (noop_rebuild_hist (plain h) rs src always ts (s_world s1) e1 Hh Hs Hb') as Hn.
+  pose proof (session_winv h rs src Hh) as Hw. fold s in Hw.
+  pose proof (sbuild_per_build always ts s) as Hb'. rewrite Hb in Hb'. symmetry in Hb'.
+  pose proof (noop_rebuild always ts (s_world s) (s_world s1) e1 Hw Hs Hb') as Hn.
   pose proof (sbuild_per_build false ts s1) as H2.
   destruct (sbuild MemoPerBuild false ts s1) as [[s2 ex] r]. unfold build in Hn. rewrite Hn in H2.
   inversion H2; subst. exists s2. split; reflexivity.
@@ -173,7 +234,7 @@ Qed.
     for it, and the next call starts from an empty memo, so it takes the
     very same steps as a call on a new Builder *)
 Theorem session_failed_not_remembered h rs src always ts s1 ex e L :
-  hist_in_scope (plain h) (empty_world rs src) ->
+  shist_in_scope h (empty_world rs src) ->
   let s := fst (srun MemoPerBuild h (new_session rs src)) in
   build_in_scope ts (s_world s) -> load_world (s_world s) ts = LOk L ->
   sbuild MemoPerBuild always ts s = (s1, ex, BFail e) ->
@@ -186,11 +247,10 @@ Theorem session_failed_not_remembered h rs src always ts s1 ex e L :
     (let '(s2, ex2, r2) := sbuild MemoPerBuild always2 ts2 (mkS (s_world s1) []) in (s_world s2, ex2, r2)).
 Proof.
   intros Hh s Hs Hl Hb.
-  destruct (session_per_build_eq_run h (new_session rs src)) as [Hw _].
-  fold s in Hw. simpl in Hw.
-  pose proof (sbuild_per_build always ts s) as Hb'. rewrite Hb in Hb'. rewrite Hw in *. symmetry in Hb'.
+  pose proof (session_winv h rs src Hh) as Hw. fold s in Hw.
+  pose proof (sbuild_per_build always ts s) as Hb'. rewrite Hb in Hb'. symmetry in Hb'.
   split.
-  - exact (failed_not_cached_hist (plain h) rs src always ts (s_world s1) ex e L Hh Hs Hl Hb').
+  - exact (failed_not_cached always ts (s_world s) (s_world s1) ex e L Hw Hs Hl Hb').
   - intros always2 ts2. reflexivity.
 Qed.
 
@@ -261,7 +321,7 @@ Proof. vm_compute. repeat split. Qed.
 (** The statement of [session_incremental_eq_clean] is false for [MemoKept]. *)
 Theorem session_kept_memo_refuted :
   ~ (forall h rs src always always' ts s1 e1 L,
-       hist_in_scope (plain h) (empty_world rs src) ->
+       shist_in_scope h (empty_world rs src) ->
        let s := fst (srun MemoKept h (new_session rs src)) in
        build_in_scope ts (s_world s) -> load_world (s_world s) ts = LOk L ->
        sbuild MemoKept always ts s = (s1, e1, BOk) ->
@@ -283,7 +343,7 @@ Proof.
   destruct HL as (L & Hl & Hreach).
   assert (Hr1 : r1 = BOk) by (vm_compute in Hb; inversion Hb; reflexivity). subst r1.
   destruct (H kx_hist kx_rules kx_src false false ["pkg/right"] s1 e1 L) as (w2 & e2 & Hc & Hout).
-  - apply hist_in_scopeb_ok. vm_compute. reflexivity.
+  - apply shist_in_scopeb_ok. vm_compute. reflexivity.
   - apply build_in_scopeb_ok. vm_compute. reflexivity.
   - exact Hl.
   - exact Hb.
